@@ -254,6 +254,8 @@ func c15SearchPaths(cases string, res *Result) {
 func runC15(cases string, res *Result) {
 	c15FilesAndChain(cases, res)
 	c15SearchPaths(cases, res)
+	c15IncludedNames(res)
+	c15CompiledFiles(cases, res)
 	// the two loader kinds must be what the engine distinguishes
 	if _, ok := twig.Loader(&c15TSLoader{}).(twig.TimestampAwareLoader); !ok {
 		panic("c15TSLoader does not implement twig.TimestampAwareLoader")
@@ -497,4 +499,131 @@ func c15FirstLine(s string) string {
 		s = s[:200]
 	}
 	return s
+}
+
+// c15IncludedNames: "the source most recently registered under a name" is what every use of the name sees -- also
+// the include tag of a template that was rendered before the registration (literal and computed names, a loader
+// template replaced by a registration, every registration call).
+func c15IncludedNames(res *Result) {
+	for _, page := range []string{"[{% include 'part' %}]", "[{% include 'pa' ~ 'rt' %}]", "[{% for i in [1, 2] %}{% include 'part' %}{% endfor %}]",
+		"{% extends 'layout' %}{% block b %}{% include 'part' %}{% endblock %}", "[{% import 'part' as p %}{{ p.m() }}]", "[{% from 'part' import m %}{{ m() }}]"} {
+		for _, viaLoader := range []bool{false, true} {
+			eng := twig.New()
+			macro := strings.Contains(page, "import")
+			text := func(v string) string {
+				if macro {
+					return "{% macro m() %}" + v + "{% endmacro %}"
+				}
+				return v
+			}
+			if viaLoader {
+				eng.RegisterLoader(twig.NewArrayLoader(map[string]string{"part": text("v0")}))
+			} else {
+				eng.RegisterString("part", text("v0"))
+			}
+			eng.RegisterString("layout", "[{% block b %}{% endblock %}]")
+			if err := eng.RegisterString("page", page); err != nil {
+				continue
+			}
+			c := Case{"stream": "included-names", "page": page, "first version from a loader": viaLoader}
+			res.Hist["stream:included-names"]++
+			n := 1
+			if strings.Contains(page, "for i") {
+				n = 2
+			}
+			step := func(what, v string) bool {
+				res.Evaluations++
+				want := "[" + strings.Repeat(v, n) + "]"
+				got, err := eng.Render("page", map[string]interface{}{})
+				if err != nil {
+					got = "error: " + err.Error()
+				}
+				if got != want {
+					res.add(Finding{Kind: "oracle", Where: "included-names: " + what, Case: c, Expected: want, Observed: got,
+						Detail: "a template that includes / imports a name was rendered, the name was registered again, the template was rendered again"})
+					return false
+				}
+				return true
+			}
+			if !step("first version", "v0") || !step("again", "v0") {
+				continue
+			}
+			eng.RegisterString("part", text("v1"))
+			if !step("after RegisterString", "v1") {
+				continue
+			}
+			if t, err := eng.ParseTemplate(text("v2")); err == nil {
+				eng.RegisterTemplate("part", t)
+				if !step("after RegisterTemplate", "v2") {
+					continue
+				}
+			}
+			o := twig.New()
+			o.RegisterString("part", text("v3"))
+			if ct, err := o.CompileTemplate("part"); err == nil {
+				if eng.RegisterCompiledTemplate(ct) == nil {
+					step("after RegisterCompiledTemplate", "v3")
+				}
+			}
+		}
+	}
+}
+
+// c15CompiledFiles: the compiled-file loader is a timestamp-aware loader like any other: with auto-reload on, a file
+// that was written again (its own modification time is later; the time recorded inside it is the same second, or
+// earlier: a roll-back) is what the next call sees; with auto-reload off the cached template stays.
+func c15CompiledFiles(cases string, res *Result) {
+	dir := filepath.Join(filepath.Dir(cases), "c15compiled")
+	defer os.RemoveAll(dir)
+	for _, auto := range []bool{true, false} {
+		os.RemoveAll(dir)
+		os.MkdirAll(dir, 0o755)
+		save := func(src string, at int64) bool {
+			w := twig.New()
+			if w.RegisterString("t", src) != nil || twig.NewCompiledLoader(dir).SaveCompiled(w, "t") != nil {
+				return false
+			}
+			files, _ := filepath.Glob(filepath.Join(dir, "t*"))
+			for _, f := range files {
+				tm := time.Now().Add(time.Duration(at) * time.Second)
+				os.Chtimes(f, tm, tm)
+			}
+			return len(files) > 0
+		}
+		if !save("one", 0) {
+			res.Notes = append(res.Notes, "compiled-files: SaveCompiled did not write a file")
+			return
+		}
+		eng := twig.New()
+		eng.RegisterLoader(twig.NewCompiledLoader(dir))
+		eng.SetAutoReload(auto)
+		c := Case{"stream": "compiled-files", "auto-reload": auto}
+		res.Hist["stream:compiled-files"]++
+		step := func(what, want string) bool {
+			res.Evaluations++
+			got, err := eng.Render("t", nil)
+			if err != nil {
+				got = "error: " + err.Error()
+			}
+			if got != want {
+				res.add(Finding{Kind: "oracle", Where: "compiled-files: " + what, Case: c, Expected: want, Observed: got,
+					Detail: "an engine serving a CompiledLoader directory; the compiled file is written again within the same second, its modification time moved forward"})
+				return false
+			}
+			return true
+		}
+		if !step("first version", "one") {
+			continue
+		}
+		save("two", 30)
+		if auto {
+			if !step("the file was written again", "two") {
+				continue
+			}
+			save("three", 60)
+			step("and again", "three")
+		} else {
+			step("the file was written again, auto-reload is off", "one")
+		}
+	}
 }
